@@ -1558,7 +1558,7 @@ func execReal(line string, out func(string, string), st sink, work string) {
 		}
 		mu.Unlock()
 	case "await":
-		g, ok := await(800 * time.Millisecond)
+		g, ok := await(600 * time.Millisecond)
 		if ok {
 			st.Count("gate-reached:" + g)
 		} else {
@@ -1885,7 +1885,7 @@ func (h) Gen(r *hlib.Rand, tier string, scale int, emit func(string)) {
 		}
 		return
 	}
-	n := 110 * scale
+	n := 100 * scale
 	for c := 0; c < n; c++ {
 		sc := scenarios[c%len(scenarios)]
 		i := r.Intn(len(sc.phases))
